@@ -126,17 +126,20 @@ def realise(clsname, dts, t0, reuse=False):
 class NumDisc:
     """numeric twin of SymDisc: every call returns a fresh pseudo-random vector and logs (time, presented state)"""
 
-    def __init__(self, n, reuse=False, seed=12345):
+    def __init__(self, n, reuse=False, seed=12345, cplx=False):
         self.nelem = n
         self.calls = []
         self.ks = []
         self.reuse = reuse
+        self.cplx = cplx
         self.rng = np.random.RandomState(seed)
-        self._out = [np.zeros(n)]
+        self._out = [np.zeros(n, dtype=complex if cplx else float)]
 
     def rhs(self, f):
-        self.calls.append((float(f.time), np.array(f.data[0], dtype=float, copy=True)))
+        self.calls.append((float(f.time), np.array(f.data[0], dtype=complex if self.cplx else float, copy=True)))
         k = self.rng.uniform(-1.0, 1.0, self.nelem)
+        if self.cplx:
+            k = k + 1j * self.rng.uniform(-1.0, 1.0, self.nelem)
         self.ks.append(k.copy())
         if self.reuse:
             self._out[0][:] = k
@@ -144,7 +147,7 @@ class NumDisc:
         return [k]
 
 
-def realise_numeric(clsname, dts, t0, reuse=False, M=16):
+def realise_numeric(clsname, dts, t0, reuse=False, M=16, cplx=False):
     """the tableau realised by the real step, recovered NUMERICALLY (least squares on pseudo-random RHS vectors): used when the
     symbolic execution is not possible (the code looked at its numbers -- a NaN test, a dtype conversion -- which is its right).
     Each dt cell is replicated M times; an explicit one-step method is affine in (y, k_1..k_s), so the presented states and the
@@ -152,10 +155,12 @@ def realise_numeric(clsname, dts, t0, reuse=False, M=16):
     cls = getattr(tnum, clsname)
     nc = len(dts)
     N = nc * M
-    disc = NumDisc(N, reuse=reuse)
+    disc = NumDisc(N, reuse=reuse, cplx=cplx)
     solver = cls(Msh(N), disc)
     rng = np.random.RandomState(4321)
     y = rng.uniform(-1.0, 1.0, N)
+    if cplx:
+        y = y + 1j * rng.uniform(-1.0, 1.0, N)
     f = field.fdata(M1(), Msh(N), [y.copy()], t=t0)
     dtrep = np.repeat(np.array(dts, dtype=float), M)
     dt = float(dts[0]) if nc == 1 else dtrep
@@ -180,6 +185,9 @@ def realise_numeric(clsname, dts, t0, reuse=False, M=16):
             basis = np.stack([y[sl]] + [disc.ks[l][sl] for l in range(nk)], axis=1)
             coef, *_ = np.linalg.lstsq(basis, target[sl], rcond=None)
             res = float(np.max(np.abs(basis @ coef - target[sl])))
+            if cplx:            # the coefficients of a Runge-Kutta step are real whatever the field
+                res = max(res, float(np.max(np.abs(np.imag(coef)))))
+                coef = np.real(coef)
             return coef, res
         for j, (tm, P) in enumerate(disc.calls):
             coef, res = fit(P, j)
@@ -192,7 +200,7 @@ def realise_numeric(clsname, dts, t0, reuse=False, M=16):
             A.append(row)
             v, ex = rat((Fraction(tm) - Fraction(t0)) / mindt)
             cp.append(v)
-        coef, res = fit(np.array(f.data[0], dtype=float), s)
+        coef, res = fit(np.array(f.data[0], dtype=complex if cplx else float), s)
         affine = affine and res < 1e-11 and abs(coef[0] - 1.0) < 1e-11
         b = []
         for l in range(s):
@@ -200,9 +208,11 @@ def realise_numeric(clsname, dts, t0, reuse=False, M=16):
             exact = exact and ex
             b.append(v)
         tend, _ = rat((Fraction(float(f.time)) - Fraction(t0)) / mindt)
+        if not affine:          # not a Runge-Kutta step of (y, k_1..k_s): the fitted numbers mean nothing (and overflow the judge)
+            A, b, exact = [[Fraction(0)] * s for _ in range(s)], [Fraction(0)] * s, False
         recs.append(dict(cls=clsname, A=[[core.rat(x) for x in r] for r in A], b=[core.rat(x) for x in b],
                          cpres=[core.rat(x) for x in cp], tend=core.rat(tend), affine=bool(affine), exact=bool(exact),
-                         poly=[], dts=[str(Fraction(d)) for d in dts], cell=c, reuse=bool(reuse), numeric=True))
+                         poly=[], dts=[str(Fraction(d)) for d in dts], cell=c, reuse=bool(reuse), numeric=True, complex=bool(cplx)))
     return recs
 
 
@@ -318,17 +328,28 @@ def run(tier):
                 recs.append(r)
                 rep.evaluations += 1
                 rep.nontrivial.add((cn, tuple(dts), t0, reuse))
+        # fields of complex dtype (the library's own propagator / cflmax step such fields): the same real tableau, recovered
+        # numerically from complex pseudo-random data
+        for (dts, t0) in cfgs[:2] + cfgs[3:4]:
+            try:
+                rs = realise_numeric(cn, dts, t0, cplx=True)
+            except Exception as ex:
+                rs = [dict(cls=cn, A=[[[0, 1]]], b=[[0, 1]], cpres=[[0, 1]], tend=[0, 1], affine=False, exact=False, poly=[], prop=[],
+                           dts=[str(d) for d in dts], cell=0, raised="%s: %s" % (type(ex).__name__, str(ex)[:100]), reuse=False, complex=True)]
+            for r in rs:
+                rid += 1
+                r["id"] = rid
+                r["poly"], r["prop"] = [], []
+                recs.append(r)
+                rep.evaluations += 1
+                rep.nontrivial.add((cn, tuple(dts), t0, "complex"))
         rep.sample({"class": cn, "realised": [r for r in recs if r["cls"] == cn][0]}, limit=10)
     wd = core.scratch("c05")
-    jin, jout = os.path.join(wd, "in.ndjson"), os.path.join(wd, "out.ndjson")
-    core.write_ndjson(jin, recs)
-    jr = core.tlc("Judge_RK", "Judge_RK.cfg", workers=1, env={"JUDGE_IN": jin, "JUDGE_OUT": jout}, timeout=1200)
-    if not (jr.rc == 0 and "JUDGED" in jr.stdout):
-        raise core.MachineryError("Judge_RK failed:\n" + "\n".join(jr.stdout.splitlines()[-30:]))
+    judged, jr = core.judge("Judge_RK", recs, wd, timeout=1200, unjudgeable="C05_unjudgeable")
     rep.add_tlc("Judge_RK", jr, counts_as_model=False)
     rep.traces += len(recs)
     byid = {r["id"]: r for r in recs}
-    for b in (core.read_ndjson(jout) if os.path.exists(jout) else []):
+    for b in judged:
         r = byid[b["id"]]
         if b["clause"] == "DRIFT_propagator":
             rep.drift.append("class %s: propagator(z) is not the stability polynomial of the tableau its step realises" % r["cls"])
@@ -336,7 +357,7 @@ def run(tier):
         if b["clause"].startswith("DRIFT"):
             rep.drift.append("class %s realises a tableau different from the transcription in RK.tla (dts=%s)" % (r["cls"], r["dts"]))
             continue
-        rep.violation(b["clause"], {"cls": r["cls"], "rhs_reuses_buffers": r.get("reuse", False)}, r)
+        rep.violation(b["clause"], {"cls": r["cls"], "rhs_reuses_buffers": r.get("reuse", False), "complex_field": r.get("complex", False)}, r)
     return rep.finish()
 
 
